@@ -88,29 +88,29 @@ Proof.
       destruct (pexists l1) eqn:Ee1.
       2:{ (* no such child on either side *)
         rewrite (U1 eq_refl). rewrite (N1 eq_refl). rewrite andb_false_r. cbn [andb].
-        destruct (if keep0 then graftp o tol s tf l0 false Indet 0 q0 k2 else (CU, k2)) as [c0 k4].
+        destruct (if keep0 then graftp o tol s tf l0 false Indet new_idx q0 k2 else (CU, k2)) as [c0 k4].
         cbn [fst cev]. rewrite Eb. reflexivity. }
       assert (K1 : keep1 = true) by (destruct keep1; auto; exfalso; apply (D1 eq_refl eq_refl); auto).
       subst keep1.
       destruct (pexists l0 && true && xorb keep0 true) eqn:Ef.
       * apply IH1; auto. discriminate.
-      * destruct (graftp o tol s tf l1 false Indet 0 q1 k2) as [c1 k3] eqn:Eg.
-        destruct (if keep0 then graftp o tol s tf l0 false Indet 0 q0 k3 else (CU, k3)) as [c0 k4].
-        cbn [fst cev]. rewrite Eb. specialize (IH1 false Indet 0%nat q1 k2). rewrite Eg in IH1. apply IH1; auto. discriminate.
+      * destruct (graftp o tol s tf l1 false Indet new_idx q1 k2) as [c1 k3] eqn:Eg.
+        destruct (if keep0 then graftp o tol s tf l0 false Indet new_idx q0 k3 else (CU, k3)) as [c0 k4].
+        cbn [fst cev]. rewrite Eb. specialize (IH1 false Indet new_idx q1 k2). rewrite Eg in IH1. apply IH1; auto. discriminate.
     + (* branch 0 *)
       pose proof (route0 p' x q Hq Eb) as Hq0. fold q0 in Hq0.
       destruct (pexists l0) eqn:Ee0.
       2:{ rewrite (U0 eq_refl). rewrite (N0 eq_refl). cbn [andb].
-          destruct (if keep1 then graftp o tol s tf l1 false Indet 0 q1 k2 else (CU, k2)) as [c1 k3].
+          destruct (if keep1 then graftp o tol s tf l1 false Indet new_idx q1 k2 else (CU, k2)) as [c1 k3].
           cbn [fst cev]. rewrite Eb. reflexivity. }
       assert (K0 : keep0 = true) by (destruct keep0; auto; exfalso; apply (D0 eq_refl eq_refl); auto).
       subst keep0.
       destruct (true && pexists l1 && xorb true keep1) eqn:Ef.
       * assert (keep1 = false) by (destruct keep1; auto; rewrite andb_false_r in Ef; discriminate). subst keep1.
         apply IH0; auto. discriminate.
-      * destruct (if keep1 then graftp o tol s tf l1 false Indet 0 q1 k2 else (CU, k2)) as [c1 k3].
-        destruct (graftp o tol s tf l0 false Indet 0 q0 k3) as [c0 k4] eqn:Eg.
-        cbn [fst cev]. rewrite Eb. specialize (IH0 false Indet 0%nat q0 k3). rewrite Eg in IH0. apply IH0; auto. discriminate.
+      * destruct (if keep1 then graftp o tol s tf l1 false Indet new_idx q1 k2 else (CU, k2)) as [c1 k3].
+        destruct (graftp o tol s tf l0 false Indet new_idx q0 k3) as [c0 k4] eqn:Eg.
+        cbn [fst cev]. rewrite Eb. specialize (IH0 false Indet new_idx q0 k3). rewrite Eg in IH0. apply IH0; auto. discriminate.
 Qed.
 
 (* rhs: every terminal function must keep rows (for composition: be well-shaped) *)
